@@ -2,6 +2,7 @@ package config
 
 import (
 	"context"
+	"errors"
 	"fmt"
 	"strings"
 
@@ -36,23 +37,32 @@ func DetectDeviceConfigChanges(ctx context.Context) <-chan bool {
 			err = watcher.Add(path)
 		}
 
-		// the watcher reports its errors (e.g. an overflow of the kernel's event queue after a burst of writes) on a channel
-		// of its own and stops delivering events until somebody takes them
-		go func() {
-			for err := range watcher.Errors {
+		// the watcher reports its errors on a channel of its own and stops delivering events until somebody takes them
+		for {
+			select {
+			case event, ok := <-watcher.Events:
+				if !ok {
+					return
+				}
+				if event.Op != fsnotify.Write {
+					continue
+				}
+
+				name := strings.ToLower(event.Name)
+				if strings.HasSuffix(name, ".toml") {
+					log.Info(fmt.Sprintf("config change detected: %s", event.Name), logger.Info)
+					change <- true
+				}
+			case err, ok := <-watcher.Errors:
+				if !ok {
+					return
+				}
 				log.Info(fmt.Sprintf("config watcher: %v", err), logger.Debug)
-			}
-		}()
-
-		for event := range watcher.Events {
-			if event.Op != fsnotify.Write {
-				continue
-			}
-
-			name := strings.ToLower(event.Name)
-			if strings.HasSuffix(name, ".toml") {
-				log.Info(fmt.Sprintf("config change detected: %s", event.Name), logger.Info)
-				change <- true
+				if errors.Is(err, fsnotify.ErrEventOverflow) {
+					// the kernel's event queue was full and events were dropped: a configuration change may be among them
+					log.Info("config changes may have been missed, reloading", logger.Info)
+					change <- true
+				}
 			}
 		}
 	}()
